@@ -900,6 +900,51 @@ def decorate_sole_use(rng, doc):
     return d
 
 
+def conflict_placement_forms(rng):
+    """(name, [definitions]) -- a response key selected twice with different fields, the two
+    carriers placed (field | direct spread | spread inside an inline fragment | spread inside
+    nested inline fragments) x (before | after the sibling) x (with | without an earlier
+    direct spread) x (sibling field | sibling fragment); every form violates rule 25"""
+    out = []
+
+    def sp(n):
+        return {"k": "spread", "name": n, "dirs": []}
+
+    def inl(on, sels):
+        return {"k": "inline", "on": on, "dirs": [], "sels": sels}
+
+    carrier_frag = {"kind": "frag", "name": "Cx", "on": "AnchorObj", "dirs": [], "sels": [_leaf("x", "id")]}
+    nested_frag = [{"kind": "frag", "name": "Cx", "on": "AnchorObj", "dirs": [], "sels": [sp("Cy")]},
+                   {"kind": "frag", "name": "Cy", "on": "AnchorObj", "dirs": [], "sels": [_leaf("x", "id")]}]
+    sibling_frag = {"kind": "frag", "name": "Sx", "on": "AnchorObj", "dirs": [], "sels": [_leaf("x", "name")]}
+    harmless = {"kind": "frag", "name": "Hz", "on": "AnchorObj", "dirs": [], "sels": [_leaf("hz", "count")]}
+    carriers = {"field": [_leaf("x", "id")], "spread": [sp("Cx")], "inline-typed": [inl("AnchorObj", [sp("Cx")])],
+                "inline-bare": [inl(None, [sp("Cx")])], "nested-inline": [inl("AnchorObj", [inl(None, [sp("Cx")])])]}
+    for cname, carrier in carriers.items():
+        for sib in ("field", "fragment"):
+            for order in ("before", "after"):
+                for earlier in (False, True):
+                    for deep in (False, True):
+                        if deep and cname == "field":
+                            continue
+                        sibling = [_leaf("x", "name")] if sib == "field" else [sp("Sx")]
+                        sels = (copy.deepcopy(carrier) + sibling) if order == "before" else (sibling + copy.deepcopy(carrier))
+                        if earlier:
+                            sels = [sp("Hz")] + sels
+                        a = _anchor_field(rng)
+                        a["alias"] = "zc"
+                        a["sels"] = sels
+                        defs = [{"kind": "op", "op": "query", "name": None, "vars": [], "dirs": [], "sels": [a]}]
+                        if cname != "field":
+                            defs += copy.deepcopy(nested_frag) if deep else [copy.deepcopy(carrier_frag)]
+                        if sib == "fragment":
+                            defs.append(copy.deepcopy(sibling_frag))
+                        if earlier:
+                            defs.append(copy.deepcopy(harmless))
+                        out.append(("%s-%s-%s%s%s" % (cname, sib, order, "-earlier" if earlier else "", "-deep" if deep else ""), defs))
+    return out
+
+
 # --------------------------------------------------- labelled violators
 def violate(rng, schema, doc, label):
     """returns a copy of doc breaking rule `label` (1-based index into RULES)
@@ -1118,6 +1163,14 @@ def violate(rng, schema, doc, label):
         c = rng.randint(0, 6)
         leaf = lambda al, nm, args=None: {"k": "field", "alias": al, "name": nm, "args": args or [], "dirs": [], "sels": None}
         a = _anchor_field(rng)
+        if rng.random() < 0.35:
+            _n, defs = rng.choice(conflict_placement_forms(rng))
+            taken = {x.get("name") for x in d["defs"]}
+            if not any(x["kind"] == "frag" and x["name"] in taken for x in defs):
+                q["sels"].extend(defs[0]["sels"])
+                for x in defs[1:]:
+                    d["defs"].insert(rng.randint(0, len(d["defs"])), x)
+                return d
         if c >= 4:
             # one key carried by two different fields under exclusive object types (fine
             # within the set); a further same-key field that conflicts with the *second*
@@ -1267,6 +1320,8 @@ def special_mutants(rng):
     for _name, _label, defs in namespace_collision_forms(rng):
         out.append({"defs": defs})
     for _name, _label, _order, defs in repeated_spread_forms(rng):
+        out.append({"defs": defs})
+    for _name, defs in conflict_placement_forms(rng):
         out.append({"defs": defs})
     # fragments spread inside their own nested same-key fields (the fields-vs-fragment
     # comparison of OverlappingFieldsCanBeMerged must be memoised to terminate)
